@@ -18,7 +18,7 @@ suite=$(go test -count=1 . ./internal/... ./datadictionary/... ./store/... 2>&1 
 pkgdir=.
 if [ -n "$demo" ]; then
   pk=$(grep -m1 -E '^package [A-Za-z_]+$' $dst/demo_test.go.txt | awk '{print $2}')
-  case "$pk" in file|file_test) pkgdir=store/file;; sql|sql_test) pkgdir=store/sql;; datadictionary) pkgdir=datadictionary;; internal) pkgdir=internal;; quickfix|quickfix_test) pkgdir=.;; *) pkgdir=.;; esac
+  case "$pk" in file|file_test) pkgdir=store/file;; sql|sql_test) pkgdir=store/sql;; datadictionary|datadictionary_test) pkgdir=datadictionary;; internal|internal_test) pkgdir=internal;; quickfix|quickfix_test) pkgdir=.;; *) pkgdir=.;; esac
   cp $dst/demo_test.go.txt $pkgdir/zz_seed_demo_test.go
   with=$(go test -tags verif -count=1 -run 'Seed|seed|ZZ' ./$pkgdir/ 2>&1 | tail -1)
   git apply -R $dst/patch.diff
